@@ -1026,7 +1026,7 @@ def flatten(x:Tensor, start_dim:int=0, end_dim:int=-1) -> 'Tensor':
     end = end_dim % ndim
     if start > end:
         raise RuntimeError("flatten() has invalid args: start_dim cannot come after end_dim")
-    if start < end:
+    if start < end or len(shape) == 0: # a 0-d tensor becomes a tensor with one element, as in PyTorch
         shape = shape[:start] + (-1,) + shape[end+1:]
     
     if x.device == Device.CPU:
